@@ -16,6 +16,7 @@ import (
 	"time"
 
 	"github.com/fluffle/goirc/client"
+	"github.com/fluffle/goirc/logging"
 	"verifharness/sess"
 )
 
@@ -183,6 +184,13 @@ func handlerProbes() []string {
 	return res
 }
 
+type fmtLogger struct{}
+
+func (fmtLogger) Debug(f string, a ...interface{}) { _ = fmt.Sprintf(f, a...) }
+func (fmtLogger) Info(f string, a ...interface{})  { _ = fmt.Sprintf(f, a...) }
+func (fmtLogger) Warn(f string, a ...interface{})  { _ = fmt.Sprintf(f, a...) }
+func (fmtLogger) Error(f string, a ...interface{}) { _ = fmt.Sprintf(f, a...) }
+
 type survJob struct {
 	Lines    []string `json:"lines"`
 	Tracking bool     `json:"tracking"`
@@ -239,6 +247,8 @@ func RunSurviveChild(args []string) int {
 			j.Note("read " + strconv.Quote(a[0].(string)))
 		}
 	}
+	// a logger that formats its records, as any real one does (the default one discards them unformatted)
+	logging.SetLogger(fmtLogger{})
 	res := survResult{Order: true}
 	var mu sync.Mutex
 	rec := 0
@@ -590,6 +600,38 @@ func RunSweep(args []string) int {
 		}
 		soup = append(soup, wellFormed...)
 		batches = append(batches, soup)
+	}
+	// stateful sessions for the state-tracking handlers: joins, parts, kicks, quits, renames and mode changes of
+	// four nicks on two channels in random order - also for nicks that are not on the channel named
+	{
+		nicks := []string{"me", "a", "b", "zz"}
+		chans := []string{"#x", "#y"}
+		for i := 0; i < 3; i++ {
+			var seq []string
+			for k := 0; k < 400; k++ {
+				n, c := nicks[rng.Intn(4)], chans[rng.Intn(2)]
+				src := ":" + n + "!i@h "
+				switch rng.Intn(9) {
+				case 0, 1, 2:
+					seq = append(seq, src+"JOIN "+c)
+				case 3:
+					seq = append(seq, src+"PART "+c)
+				case 4:
+					seq = append(seq, src+"KICK "+c+" "+nicks[rng.Intn(4)]+" :x")
+				case 5:
+					seq = append(seq, src+"MODE "+c+" +o-v "+nicks[rng.Intn(4)]+" "+nicks[rng.Intn(4)])
+				case 6:
+					seq = append(seq, ":irc 353 me = "+c+" :me @a +b zz")
+				case 7:
+					if n != "me" {
+						seq = append(seq, src+"QUIT :bye")
+					}
+				default:
+					seq = append(seq, src+"TOPIC "+c+" :t")
+				}
+			}
+			batches = append(batches, seq)
+		}
 	}
 	if len(extraLines) > 0 {
 		var ex []string
